@@ -203,11 +203,13 @@ class Rec:
         self.raised = False
         self.awaited = set()   # indices of emissions whose result was awaited / yielded
         self.jump = None       # 'break' / 'continue' until the enclosing loop consumes it
+        self.stale = set()     # texts of tests that may not be re-used (a value they mention was mutated since)
 
     def copy(self):
         r = Rec()
         r.awaited = set(self.awaited)
         r.jump = self.jump
+        r.stale = set(self.stale)
         r.env = dict(self.env)
         r.conds = list(self.conds)
         r.stores = list(self.stores)
@@ -223,8 +225,9 @@ class Rec:
 
 
 class SymEval:
-    def __init__(self, model, cls=None, depth=3, maxpaths=400, no_splice=()):
+    def __init__(self, model, cls=None, depth=3, maxpaths=2000, no_splice=(), name_calls=False):
         self.model, self.cls, self.depth, self.maxpaths = model, cls, depth, maxpaths
+        self.name_calls = name_calls      # let-normal form: the value of an opaque call is the symbol C<index into Rec.calls>
         self.no_splice = set(no_splice)
 
     # -------------------------------------------------------------- expression rewriting
@@ -234,6 +237,13 @@ class SymEval:
             def visit_Subscript(self_, n):
                 self_.generic_visit(n)
                 sl = n.slice
+                if isinstance(n.value, ast.Dict) and isinstance(sl, ast.Constant) and all(isinstance(k, ast.Constant) for k in n.value.keys):
+                    for k, v in zip(n.value.keys, n.value.values):
+                        if k.value == sl.value:
+                            return v
+                if isinstance(n.value, (ast.Tuple, ast.List)) and isinstance(sl, ast.Constant) and isinstance(sl.value, int) \
+                        and not any(isinstance(x, ast.Starred) for x in n.value.elts) and -len(n.value.elts) <= sl.value < len(n.value.elts):
+                    return n.value.elts[sl.value]
                 if isinstance(sl, ast.UnaryOp) and isinstance(sl.op, ast.USub) and isinstance(sl.operand, ast.Constant) and sl.operand.value == 1:
                     return _sym('LAST', n.value)
                 if isinstance(sl, ast.Constant) and sl.value == -1:
@@ -244,6 +254,14 @@ class SymEval:
                     return _sym('INIT', n.value)
                 if isinstance(sl, ast.Slice) and sl.upper is None and sl.step is None and sl.lower is not None and src(sl.lower) == '1':
                     return _sym('REST', n.value)
+                return n
+
+            def visit_Compare(self_, n):
+                self_.generic_visit(n)
+                if len(n.ops) == 1 and isinstance(n.ops[0], (ast.In, ast.NotIn)) and isinstance(n.left, ast.Constant) \
+                        and isinstance(n.comparators[0], ast.Dict) and all(isinstance(k, ast.Constant) for k in n.comparators[0].keys):
+                    present = any(k.value == n.left.value for k in n.comparators[0].keys)
+                    return ast.Constant(value=present if isinstance(n.ops[0], ast.In) else not present)
                 return n
 
             def visit_SetComp(self_, n):
@@ -310,8 +328,27 @@ class SymEval:
         elif isinstance(target, ast.Attribute) and isinstance(target.value, ast.Name) and target.value.id == 'self':
             r.env['self.' + target.attr] = value
             r.stores.append((target.attr, value, r.susp, loop))
+        elif isinstance(target, ast.Subscript) and isinstance(target.value, ast.Name) and isinstance(target.slice, ast.Constant) \
+                and isinstance(r.env.get(target.value.id), ast.Dict) \
+                and all(isinstance(k, ast.Constant) for k in r.env[target.value.id].keys):
+            d = r.env[target.value.id]
+            keys, vals = list(d.keys), list(d.values)
+            for i, k in enumerate(keys):
+                if k.value == target.slice.value:
+                    vals[i] = value
+                    break
+            else:
+                keys.append(ast.Constant(value=target.slice.value))
+                vals.append(value)
+            _mark_stale(r, d)
+            r.env[target.value.id] = ast.Dict(keys=keys, values=vals)
         else:
-            r.calls.append((ast.Assign(targets=[r.ev(target)], value=value, lineno=0), r.susp, loop))
+            tv = r.ev(target)
+            r.calls.append((ast.Assign(targets=[tv], value=value, lineno=0), r.susp, loop))
+            base = tv
+            while isinstance(base, (ast.Subscript, ast.Attribute)):
+                base = base.value
+            _mark_stale(r, base)
 
     def _helper(self, fn, call):
         """resolve a call to a spliceable helper: method of the class (incl. static) or private module-level function"""
@@ -418,7 +455,12 @@ class SymEval:
                 call = ast.Call(func=fexpr, args=acc, keywords=[ast.keyword(arg=k.arg, value=self.val(q, k.value)) for k in node.keywords])
                 q = q.copy()
                 q.calls.append((call, q.susp, loop))
-                yield q, self.simplify(call)
+                if isinstance(fexpr, ast.Attribute) and fexpr.attr in _MUTATORS:
+                    _mark_stale(q, fexpr.value)
+                if self.name_calls:
+                    yield q, ast.Name(id='C%d' % (len(q.calls) - 1), ctx=ast.Load())
+                else:
+                    yield q, self.simplify(call)
             return
         yield r, self.val(r, node)
 
@@ -464,7 +506,16 @@ class SymEval:
             yield q
         elif isinstance(s, ast.If):
             for q0, t in self.eval_value(r, s.test, fn, loop, depth):
+                key = src(t)
+                known = None
+                if isinstance(t, ast.Constant):
+                    yield from self.block(s.body if t.value else s.orelse, q0, fn, loop, depth)
+                    continue
+                if _pure_test(t) and key not in q0.stale:
+                    known = next((o for c, o in reversed(q0.conds) if c == key), None)
                 for outcome, arm in ((True, s.body), (False, s.orelse)):
+                    if known is not None and outcome != known:
+                        continue
                     q = q0.copy()
                     q.conds.append((src(t), outcome))
                     yield from self.block(arm, q, fn, loop, depth)
@@ -523,6 +574,27 @@ class SymEval:
             yield r
         else:
             raise AnalysisError('symbolic evaluation: unsupported statement %s at line %d' % (type(s).__name__, s.lineno))
+
+
+_MUTATORS = {'append', 'extend', 'add', 'pop', 'remove', 'clear', 'update', 'popleft', 'appendleft', 'discard', 'insert',
+             'setdefault', 'sort', 'reverse'}
+
+
+def _pure_test(t):
+    for x in ast.walk(t):
+        if isinstance(x, (ast.Await, ast.Yield, ast.YieldFrom)):
+            return False
+        if isinstance(x, ast.Call) and not (isinstance(x.func, ast.Name) and x.func.id in (
+                'len', 'isinstance', 'callable', 'type', 'ELEM', 'FIRST', 'LAST', 'INIT', 'REST', 'set', 'sorted', 'tuple', 'list')):
+            return False
+    return True
+
+
+def _mark_stale(r, base):
+    b = src(base)
+    for c, o in r.conds:
+        if b in c:
+            r.stale.add(c)
 
 
 def nf(e):
